@@ -217,6 +217,31 @@ class DtV:
         return self
 
 
+class RecSchema(Atomic):
+    """Shape of a 'typed JSON' object: constant keys (key -> concrete value), mandatory fields and optional fields
+    (key -> TypeDesc).  The key set of the object is exactly consts + fields + the optional fields that are present."""
+
+    def __init__(self, name, consts, fields, optional=()):
+        self.name, self.consts, self.fields, self.optional = name, dict(consts), list(fields), set(optional)
+
+    def __repr__(self):
+        return f'<schema {self.name}>'
+
+
+class RecV:
+    """Immutable JSON object (a Python dict) described by a RecSchema; the field values are the fields of a z3 datatype
+    value.  Used for symbolic well-formed parser input of any size."""
+
+    def __init__(self, schema, expr):
+        self.schema, self.expr = schema, expr
+
+    def __repr__(self):
+        return f'<json {self.schema.name} {self.expr}>'
+
+    def __deepcopy__(self, memo):
+        return self
+
+
 class StrT:
     """Symbolic string: concatenation of parts; a part is a python str, a z3 String expr or a JoinT."""
     __slots__ = ('parts',)
